@@ -30,7 +30,9 @@ def one(args):
                 mod.check(eng, res)
             except Exception as exc:  # noqa: BLE001
                 pass
-        hard = [(o.rule, _norm_role(o.role)) for o in res.obligations if not o.ok and not o.soft]
+        from sa.report import load_known
+        known = {k["key"] for k in load_known().get("known", []) if k.get("property") == prop}
+        hard = [(o.rule, _norm_role(o.role)) for o in res.obligations if not o.ok and not o.soft and o.key not in known]
         soft = [(o.rule, _norm_role(o.role), o.reason[:120]) for o in res.obligations if not o.ok and o.soft]
         return vid, prop, {"hard": hard, "soft": soft}, ""
     finally:
